@@ -87,3 +87,19 @@ extern "C" void h_two_substitutions(void) {
    }
    vp_done();
 }
+// a full domain first: all five parameters of the two lists are bound (in ascending or descending order), then C16_K2 symbolic rebindings;
+// the latest binding of every parameter wins whatever the number of bindings already held
+extern "C" void h_rebinding_full(void) {
+   World* w = new World;
+   impl::General_substitution* g = w->lx.make_general_substitution();
+   const ipr::Parameter* all[5] = { w->P[0], w->P[1], w->P[2], w->Q[0], w->Q[1] }; const ipr::Expr* last[5];
+   bool descending = vp_flag();
+   for (int i = 0; i < 5; ++i) { int k = descending ? 4 - i : i; last[k] = w->V[k % 3]; g->subst(*all[k], *last[k]); }
+   for (int step = 0; step < C16_K2; ++step) {
+      unsigned p = vp_pick(5), v = vp_pick(3);
+      last[p] = v == 0 ? w->V[(p + 1) % 3] : v == 1 ? static_cast<const ipr::Expr*>(all[p]) : static_cast<const ipr::Expr*>(all[(p + 1) % 5]);
+      g->subst(*all[p], *last[p]);
+      for (int q = 0; q < 5; ++q) vp_assert(&(*g)[*all[q]] == last[q], 30);
+   }
+   vp_done();
+}
